@@ -722,6 +722,11 @@ func lenClass(n int) string {
 }
 
 func runCase(res *lib.Result, drv *lib.Drv, real bool, c Case, idx int) {
+	if encx.TooStuck() {
+		res.Hit("skipped-after-timeouts")
+		return
+	}
+	encx.Inflight(c)
 	A, B, doc, err := build(c)
 	if err != nil {
 		res.Violate("encrypt-fails", "Encrypt failed while preparing a valid document: "+err.Error(), c)
@@ -923,6 +928,10 @@ func genToy(tier string, rng *lib.Rand) []toyCase {
 
 func main() {
 	f := lib.ParseFlags()
+	encx.Supervise(f.Out, rule, func() { run(f) })
+}
+
+func run(f lib.Flags) {
 	res := lib.NewResult(rule)
 	rng := lib.NewRand(f.Seed)
 	drv, err := lib.StartDrv(f.Drv, "C02")
@@ -995,6 +1004,9 @@ func main() {
 		}
 	}
 	for i, c := range toys {
+		if i%16 == 0 {
+			encx.Inflight(c)
+		}
 		impl := runToy(c)
 		res.Count(lines[i], c.Mut != "none" || c.Script.Term != "eof")
 		res.Hit("toy." + strings.SplitN(c.Mut, "@", 2)[0])
